@@ -21,12 +21,13 @@ def split_request(data):
 
 class Board:
     def __init__(self, syntax="ebb3", version="3.0.2", nickname="", tokens=False, empties=None,
-                 future=False):
+                 future=False, lenient=False):
         # syntax "ebb3": firmware that understands CU,10,1; it powers up in legacy syntax and
         # switches to the future syntax on CU,10,1 (future=True starts it there).
         # syntax "legacy": firmware that only ever speaks the legacy syntax.
         self.syntax = syntax
         self.future = bool(future) and syntax == "ebb3"
+        self.lenient = lenient    # acknowledge commands even when their arguments are out of range
         self.version = version
         self.vars = [0] * 32
         self.nickname = nickname
@@ -115,7 +116,11 @@ class Board:
         up = name.upper()
         tok = self._tok(text) if self.tokens else None
         if up == "QL":
-            index = int(args[0]) if args else 0
+            try:
+                index = int(args[0]) if args else 0
+                self.vars[index]
+            except (ValueError, IndexError):
+                index = 0
             return str(self.vars[index]) if tok is None else str(tok % 256)
         if up == "QT":
             return self.nickname if tok is None else "n%d" % tok
@@ -162,7 +167,7 @@ class Board:
         if data is not None:
             sep = "," if data != "" or up == "QT" else ""
             return self._lines("%s%s%s\r\n" % (name, sep, data))
-        if not self._apply(name, args):
+        if not self._apply(name, args) and not self.lenient:
             self.rejected.append(text)
             return self._lines("!5 Err: Parameter outside allowed range\r\n")
         return self._lines("%s\r\n" % name)
@@ -179,7 +184,7 @@ class Board:
             if low in NO_OK_QUERIES:
                 return self._lines(data + "\r\n")
             return self._lines(data + "\r\n", "OK\r\n")
-        if not self._apply(name, args):
+        if not self._apply(name, args) and not self.lenient:
             self.rejected.append(text)
             return self._lines("!5 Err: Parameter outside allowed range\r\n")
         return self._lines("OK\r\n")
